@@ -75,11 +75,12 @@ func NewEvaluator(params ParameterProvider, evk EvaluationKeySet) (eval *Evaluat
 
 	eval.EvaluationKeySet = evk
 
-	var AutomorphismIndex map[uint64][]uint64
+	// Always allocated: CheckAndGetGaloisKey lazily adds the tables of keys
+	// that are added to the key set after the instantiation of the evaluator.
+	AutomorphismIndex := make(map[uint64][]uint64)
 
 	if !utils.IsNil(evk) {
 		if galEls := evk.GetGaloisKeysList(); len(galEls) != 0 {
-			AutomorphismIndex = make(map[uint64][]uint64)
 
 			N := p.N()
 			NthRoot := p.RingQ().NthRoot()
@@ -238,13 +239,21 @@ func (eval Evaluator) InitOutputUnaryOp(op0, opOut *Element[ring.Poly]) (degree,
 // shared with the receiver and the temporary buffers are reallocated. The receiver and the returned
 // evaluators can be used concurrently.
 func (eval Evaluator) ShallowCopy() *Evaluator {
+
+	// The map is written to by CheckAndGetGaloisKey and hence cannot be shared
+	// (the index tables themselves are read-only).
+	automorphismIndex := make(map[uint64][]uint64, len(eval.automorphismIndex))
+	for galEl, index := range eval.automorphismIndex {
+		automorphismIndex[galEl] = index
+	}
+
 	return &Evaluator{
 		params:            eval.params,
 		Decomposer:        eval.Decomposer,
 		BasisExtender:     eval.BasisExtender.ShallowCopy(),
 		EvaluatorBuffers:  NewEvaluatorBuffers(eval.params),
 		EvaluationKeySet:  eval.EvaluationKeySet,
-		automorphismIndex: eval.automorphismIndex,
+		automorphismIndex: automorphismIndex,
 	}
 }
 
@@ -252,10 +261,9 @@ func (eval Evaluator) ShallowCopy() *Evaluator {
 // and where the temporary buffers are shared. The receiver and the returned evaluators cannot be used concurrently.
 func (eval Evaluator) WithKey(evk EvaluationKeySet) *Evaluator {
 
-	var AutomorphismIndex map[uint64][]uint64
+	AutomorphismIndex := make(map[uint64][]uint64)
 
 	if galEls := evk.GetGaloisKeysList(); len(galEls) != 0 {
-		AutomorphismIndex = make(map[uint64][]uint64)
 
 		N := eval.params.N()
 		NthRoot := eval.params.RingQ().NthRoot()
